@@ -110,7 +110,21 @@ def oracleOf? : Sexp → Option Oracle
       pure o
   | _ => none
 
+/-- `util::parse_expr::{preserve_str_literal, parse_str_literal}` (used through `with = ..`) -/
+def helperAnswer (c : Sexp) : Option String :=
+  match c with
+  | .list [.atom "helper", .atom which, .list [.atom "meta", m], orc] =>
+      (match metaOf? m, oracleOf? orc with
+       | some m, some o =>
+           if which == "preserve" then some ((SynTypes.preserveStrLiteral Val.toks m).toAnswer)
+           else some ((SynTypes.parseStrLiteral (o.parseSyn "Expr") Val.toks m).toAnswer)
+       | _, _ => some "bad-case")
+  | _ => none
+
 def answer (c : Sexp) : String :=
+  match helperAnswer c with
+  | some a => a
+  | none =>
   match c with
   | .list [.atom "fm", ty, entry, orc] =>
       match tyOf? ty, oracleOf? orc with
